@@ -61,9 +61,13 @@ func DecodeMeta(hdr BoxHeader, startPos uint64, r io.Reader) (Box, error) {
 func DecodeMetaSR(hdr BoxHeader, startPos uint64, sr bits.SliceReader) (Box, error) {
 	b := MetaBox{}
 	lookAheadData := make([]byte, 4)
-	err := sr.LookAhead(4, lookAheadData)
-	if err != nil {
-		return nil, fmt.Errorf("could not look ahead in Meta box")
+	// A QuickTime meta box has no version and flags but starts with a hdlr box.
+	// Only look inside this box: sr may span the following boxes.
+	if hdr.payloadLen() >= 8 {
+		err := sr.LookAhead(4, lookAheadData)
+		if err != nil {
+			return nil, fmt.Errorf("could not look ahead in Meta box")
+		}
 	}
 	var offset uint64 = 8
 	if bytes.Equal(lookAheadData, []byte("hdlr")) {
